@@ -6,6 +6,16 @@ Open Scope string_scope.
 
 Definition show_io (l : list (string * string)) : string := join "," (map (fun kv => fst kv ++ ":" ++ snd kv) l).
 
+Fixpoint show_raw (n : mraw) : string :=
+  match n with MRaw name op dom i o sl =>
+    "(" ++ name ++ " " ++ dom ++ ":" ++ op ++ " [" ++ join "," i ++ "] [" ++ join "," o ++ "] {" ++
+    join ";" (map (fun ks => match snd ks with Some g => fst ks ++ "=" ++ show_rawgraph g | None => fst ks end) sl) ++ "})" end
+with show_rawgraph (g : mrawgraph) : string :=
+  match g with MRawGraph i ini b o =>
+    "<[" ++ join "," i ++ "] [" ++ join "," ini ++ "] " ++ join " " (map show_raw b) ++ " [" ++ join "," o ++ "]>" end.
+
+Definition show_names (l : list (string * string)) : string := join "," (map fst l).
+
 Fixpoint show_node (n : mnode) : list string :=
   match n with
   | MNode name op dom _ i o al =>
@@ -15,24 +25,25 @@ Fixpoint show_node (n : mnode) : list string :=
   | MIntro name _ i o =>
       map (fun k => "(" ++ name ++ "_id" ++ decn k ++ " :Identity [" ++ nth k i "?" ++ "] [" ++ nth k o "?" ++ "] {})")
           (seqn 0 (List.length i))
-  | MRaw name op dom _ i o sl =>
-      ["(" ++ name ++ " " ++ dom ++ ":" ++ op ++ " [" ++ join "," i ++ "] [" ++ join "," o ++ "] {" ++
-       join ";" (map (fun ks => fst ks ++ "=" ++ show_raw (snd ks)) sl) ++ "})"]
+  | MInline _ _ _ _ body => map show_raw body
   end
-with show_graph (g : mgraph) : string :=
+with show_graph (g : mgraph) : string :=       (* nested graphs: names only *)
+  match g with MGraph i b o =>
+    "<[" ++ show_names i ++ "] [" ++ join "," (flat_map (fun n => match n with MInit nm _ => [nm] | _ => [] end) b) ++ "] " ++
+    join " " (flat_map show_node b) ++ " [" ++ show_names o ++ "]>" end.
+Definition show_main (g : mgraph) : string :=         (* main graph: names and types of inputs / outputs *)
   match g with MGraph i b o =>
     "<[" ++ show_io i ++ "] [" ++ join "," (flat_map (fun n => match n with MInit nm _ => [nm] | _ => [] end) b) ++ "] " ++
-    join " " (flat_map show_node b) ++ " [" ++ show_io o ++ "]>" end
-with show_raw (g : mraw) : string :=
-  match g with MRawGraph i b o =>
-    "<[" ++ join "," i ++ "] [] " ++ join " " (flat_map show_node b) ++ " [" ++ join "," o ++ "]>" end.
+    join " " (flat_map show_node b) ++ " [" ++ show_io o ++ "]>" end.
 
 Definition show_imports (l : list (string * nat)) : string :=
   "{" ++ join "," (map (fun dv => fst dv ++ "=" ++ decn (snd dv)) l) ++ "}".
 
+Definition show_function (f : mfunction) : string :=
+  " FUNC " ++ f_domain f ++ ":" ++ f_name f ++ " " ++ show_imports (f_imports f) ++ " <[" ++ join "," (f_inputs f) ++ "] [" ++
+  join "," (f_attrs f) ++ "] " ++ join " " (flat_map show_node (f_body f)) ++ " [" ++ join "," (f_outputs f) ++ "]>".
+
 Definition show_model (m : model) : string :=
-  show_imports (mimports m) ++ " " ++ show_graph (mmain m) ++
-  concat "" (map (fun f => match f with (d, n, g, imps) => " FUNC " ++ d ++ ":" ++ n ++ " " ++ show_imports imps ++ " " ++ show_graph g end)
-                 (mfunctions m)).
+  show_imports (mimports m) ++ " " ++ show_main (mmain m) ++ concat "" (map show_function (mfunctions m)).
 
 Definition show (r : res model) : string := match r with inl m => show_model m | inr e => show_err e end.
